@@ -70,7 +70,7 @@ def i1_next_fold_agree(prog):
     return r
 
 
-@rule('R9', props=['C09'], floor=4, configs=('all',))
+@rule('R9', props=['C09'], floor=5, configs=('all',))
 def r9_repeat_none(prog):
     """RepeatNone (absent Option<&mut C> column in parallel queries) conserves the count: split_at(index)
     yields (index, count - index) in that order; into_iter / len / opt_len / with_producer carry the
@@ -80,58 +80,113 @@ def r9_repeat_none(prog):
     def fn_of(self_name, name):
         c = [f for f in prog.fns.values() if f.name == name and f.impl and is_adt(f.impl['self'], 'query::view::par::seal::repeat::' + self_name)]
         return c[0] if len(c) == 1 else None
+    def count_field(owner):
+        adt = prog.adts['query::view::par::seal::repeat::' + owner]
+        return [x['name'] for x in adt['variants'][0]['fields']].index('count')
+
+    def self_count(f, owner):
+        me = ('p', 1, f.body.local_name(1) or 'self')
+        ci = count_field(owner)
+        return lambda t: pathsem.is_field_of(t, owner, ci) and pathsem.mentions(t, lambda u: u == me)
     f = fn_of('RepeatNoneProducer', 'split_at')
     if f is None:
         r.viol('R9', 'split_at/missing', '-', 'RepeatNoneProducer::split_at not found')
     else:
-        body = f.body
-        se = SymEval(prog, body)
-        adt = prog.adts['query::view::par::seal::repeat::RepeatNoneProducer']
-        names = [x['name'] for x in adt['variants'][0]['fields']]
-        ci = names.index('count')
-        aggs = {}
-        for b, i, s in body.stmts():
-            if s['k'] == 'assign' and s['rv']['k'] == 'agg' and s['rv'].get('path', '').endswith('RepeatNoneProducer'):
-                aggs[s['place']['l']] = se.operand(s['rv']['ops'][ci], (b, i))
-        ret = None
-        for b, i, s in body.stmts():
-            if s['k'] == 'assign' and s['place']['l'] == 0 and s['rv']['k'] == 'agg' and s['rv']['agg'] == 'tuple':
-                ret = [op_local(o) for o in s['rv']['ops']]
-        r.inst('RepeatNoneProducer::split_at -> %s' % ([str(aggs.get(l)) for l in ret] if ret else None))
-        if not ret or len(ret) != 2 or any(l not in aggs for l in ret):
-            r.viol('R9', 'split_at/shape', f.loc(), 'split_at does not return a pair of producers built in place')
-        else:
-            left, right = aggs[ret[0]], aggs[ret[1]]
-            if left != Lin({'index': 1}):
+        E = pathsem.analyse(prog, f)
+        rets = [p for p in E.paths if p.ended == 'return']
+        ci = count_field('RepeatNoneProducer')
+        is_cnt = self_count(f, 'RepeatNoneProducer')
+        idx = ('p', f.body.arg_local('index') or 2, 'index')
+        r.inst('RepeatNoneProducer::split_at: %d path(s)' % len(rets))
+        if not rets or E.truncated:
+            r.viol('R9', 'split_at/shape', f.loc(), 'split_at not analysable')
+        for p in rets[:1] if len(rets) == 1 else rets:
+            v = p.ret
+            halves = v[4] if isinstance(v, tuple) and v[0] == 'agg' and v[1] == 'tuple' and len(v[4]) == 2 else None
+            if not halves or not all(isinstance(h, tuple) and h[0] == 'agg' and h[1].endswith('RepeatNoneProducer') for h in halves):
+                r.viol('R9', 'split_at/shape', f.loc(), 'split_at does not return a pair of producers')
+                break
+            left, right = pathsem.lin(halves[0][4][ci]), pathsem.lin(halves[1][4][ci])
+            if not (left.const == 0 and list(left.terms.items()) == [(idx, 1)]):
                 r.viol('R9', 'split_at/left-count', f.loc(), 'left half must yield exactly `index` items (got %s): rayon zips producers by position, so a wrong split drops or duplicates entities' % left)
-            if right != Lin({'self.count': 1, 'index': -1}):
+            rt = dict(right.terms)
+            cnts = [t for t in rt if is_cnt(t)]
+            if not (right.const == 0 and len(rt) == 2 and len(cnts) == 1 and rt[cnts[0]] == 1 and rt.get(idx) == -1):
                 r.viol('R9', 'split_at/right-count', f.loc(), 'right half must yield `count - index` items (got %s)' % right)
+            break
     for self_name, name, field in (('RepeatNoneProducer', 'into_iter', 'RepeatNoneIter'), ('RepeatNone', 'with_producer', 'RepeatNoneProducer')):
         f = fn_of(self_name, name)
         if f is None:
             r.viol('R9', '%s/missing' % name, '-', '%s::%s not found' % (self_name, name))
             continue
-        body = f.body
-        se = SymEval(prog, body)
-        ok = False
-        for b, i, s in body.stmts():
-            if s['k'] == 'assign' and s['rv']['k'] == 'agg' and s['rv'].get('path', '').endswith(field):
-                adt = prog.adts[s['rv']['path']]
-                ci = [x['name'] for x in adt['variants'][0]['fields']].index('count')
-                v = se.operand(s['rv']['ops'][ci], (b, i))
-                ok = v == Lin({'self.count': 1})
+        E = pathsem.analyse(prog, f)
+        is_cnt = self_count(f, self_name)
+        ci = count_field(field)
+        ok = bool(E.paths) and not E.truncated
+        n = 0
+        for p in E.paths:
+            if p.ended != 'return':
+                continue
+            built = [t for t in pathsem.subterms(p.ret) if t[0] == 'agg' and t[1].endswith(field)]
+            for e in p.calls():
+                for a_ in e['vals']:
+                    built += [t for t in pathsem.subterms(a_) if t[0] == 'agg' and t[1].endswith(field)]
+            n += len(built)
+            if not built or not all(is_cnt(b_[4][ci]) for b_ in built):
+                ok = False
         r.inst('%s::%s carries count' % (self_name, name))
-        if not ok:
+        if not ok or not n:
             r.viol('R9', '%s/count-changed' % name, f.loc(), '%s::%s must hand on the count unchanged' % (self_name, name))
     f = fn_of('RepeatNone', 'len')
     if f is not None:
-        body = f.body
         r.inst('RepeatNone::len')
-        ok = any(s['k'] == 'assign' and s['place']['l'] == 0 and s['rv']['k'] == 'use' and (receiver_name(prog, body, s['rv']['op']) or '') == 'self.count' for b, i, s in body.stmts())
-        if not ok:
+        E = pathsem.analyse(prog, f)
+        is_cnt = self_count(f, 'RepeatNone')
+        if not E.paths or not all(p.ended == 'return' and is_cnt(p.ret) for p in E.paths):
             r.viol('R9', 'len/not-count', f.loc(), 'RepeatNone::len must be the count')
     else:
         r.viol('R9', 'len/missing', '-', 'RepeatNone::len not found')
+    # the sequential iterator yields Some(None) exactly `count` times
+    f = fn_of('RepeatNoneIter', 'next')
+    if f is None:
+        r.viol('R9', 'next/missing', '-', 'RepeatNoneIter::next not found')
+    else:
+        E = pathsem.analyse(prog, f)
+        rets = [p for p in E.paths if p.ended == 'return']
+        is_cnt = self_count(f, 'RepeatNoneIter')
+        r.inst('RepeatNoneIter::next: %d paths' % len(rets))
+        bad = None
+        if E.truncated or not rets:
+            bad = 'not analysable'
+        for c in (0, 1, 2, 9):
+            def leaf(t, c=c):
+                return c if is_cnt(t) else None
+            feas = []
+            for p in rets:
+                okp = True
+                for a_, tv in p.conds:
+                    if isinstance(tv, tuple) or not pathsem.mentions(a_, is_cnt):
+                        continue
+                    val = pathsem.evaluate(a_, leaf)
+                    if val is None:
+                        bad = bad or 'cannot evaluate the condition %s' % pathsem.tstr(a_)
+                    elif bool(val) != bool(tv):
+                        okp = False
+                if okp:
+                    feas.append(p)
+            for p in feas:
+                stores = [e for e in p.events if e['k'] == 'store' and is_cnt(e['loc'])]
+                if c == 0:
+                    if p.ret != pathsem.NONE or stores:
+                        bad = bad or 'with count == 0 the iterator must end (and leave the count alone)'
+                else:
+                    newc = pathsem.evaluate(stores[-1]['value'], leaf) if stores else None
+                    if p.ret != pathsem.SOME(pathsem.NONE) or newc != c - 1:
+                        bad = bad or 'with count == %d the iterator must yield Some(None) and leave count == %d (got %s, count %s)' % (c, c - 1, pathsem.tstr(p.ret), newc)
+            if not feas:
+                bad = bad or 'no feasible path for count == %d' % c
+        if bad:
+            r.viol('R9', 'next/count', f.loc(), 'RepeatNoneIter::next must yield Some(None) exactly `count` times: %s' % bad)
     return r
 
 
@@ -260,49 +315,69 @@ def g6_subview_extraction(prog):
         body = f.body
         key = 'SubViewable::view[sub=%s from super=%s]' % (kind_str(sub), kind_str(sup))
         r.inst(key)
-        inits = [(b, t) for b, t in body.calls(lambda c: c['name'] == 'assume_init')]
-        unwraps = [(b, t) for b, t in body.calls(lambda c: c['name'] in ('unwrap_unchecked',))]
-        bits = [(b, t) for b, t in body.calls(lambda c: c['name'] == 'get_unchecked' and 'IdentifierRef' in c['path'])]
-        if sup[0] == 'ref':
-            if len(inits) != 1:
-                r.viol('G6', key + '/assume-init-count', f.loc(), 'a MaybeUninit super view must be assume_init-ed exactly once (found %d)' % len(inits))
+        E = pathsem.analyse(prog, f)
+        rets = [p for p in E.paths if p.ended == 'return']
+        rep = set()
+
+        def once(k, ln, msg, key=key, f=f, rep=rep):
+            if k not in rep:
+                rep.add(k)
+                r.viol('G6', key + '/' + k, f.loc(ln), msg)
+        if E.truncated or not rets:
+            once('not-analysable', None, 'path enumeration cut off')
+            continue
+        S = pathsem.strip_refs
+        pv = ('p', body.arg_local('views') or 1, 'views')
+        pi = ('p', body.arg_local('indices') or 2, 'indices')
+        pid = body.arg_local('identifier')
+        v0 = ('f', pv, 0, 'tuple')
+        rem = ('agg', 'tuple', None, 0, (('f', pv, 1, 'tuple'), ('f', pi, 1, 'tuple')))
+
+        def is_bit(a_):
+            return isinstance(a_, tuple) and a_[0] == 'call' and a_[1].endswith('::get_unchecked') and 'IdentifierRef' in a_[1] and len(a_[2]) == 2 \
+                and S(a_[2][0]) == ('p', pid, 'identifier') and S(a_[2][1]) == ('f', pi, 0, 'tuple')
+        for p in rets:
+            inits = p.calls(lambda e: e['name'] == 'assume_init')
+            unwraps = [e for e in p.calls(lambda e: e['name'] in ('unwrap_unchecked', 'unwrap', 'expect')) if S(e['args'][0]) == v0]
+            if not (isinstance(p.ret, tuple) and p.ret[0] == 'agg' and p.ret[1] == 'tuple' and len(p.ret[4]) == 2):
+                once('remainder', None, 'cannot see the (view, remainder) pair returned')
                 continue
-            ib, it = inits[0]
-            if sub[0] == 'opt':
-                ok = False
-                for bb, bt in bits:
-                    nm = receiver_name(prog, body, bt['args'][1]) or ''
-                    cl = bt['dest']['l']
-                    for sb in range(body.n):
-                        stt = body.term(sb)
-                        if stt['k'] == 'switch' and op_local(stt['discr']) in derived(body, {cl}) and 0 in stt['values']:
-                            neg = is_negated(body, op_local(stt['discr']), cl)
-                            good = stt['targets'][stt['values'].index(0)] if neg else stt['otherwise']
-                            if body.edge_dominates((sb, good), ib) and nm.endswith('indices.0'):
-                                ok = True
-                if not ok:
-                    r.viol('G6', key + '/unguarded-assume-init', f.loc(it['ln']),
-                           'optional sub-view reads a possibly uninitialised super view: assume_init must be guarded by the identifier bit at this view\'s own index (indices.0)')
+            V, R_ = p.ret[4]
+            if R_ != rem:
+                once('remainder', None, 'remainder handed to the next sub-view must be (views.1, indices.1)')
+            good_init = [e for e in inits if S(e['args'][0]) == v0]
+            if sup[0] == 'ref':
+                bits = [(a_, v) for a_, v in p.conds if is_bit(a_)]
+                if sub[0] == 'opt':
+                    bit_true = any(v is True for a_, v in bits)
+                    if inits and not bit_true:
+                        once('unguarded-assume-init', inits[0]['ln'], 'optional sub-view reads a possibly uninitialised super view: assume_init must be guarded by the identifier bit at this view\'s own index (indices.0)')
+                    if bit_true:
+                        if len(good_init) != 1 or V != pathsem.SOME(good_init[0]['ret']):
+                            once('assume-init-count', None, 'with the identifier bit set the sub-view must be Some(the super view, assume_init-ed exactly once)')
+                    elif V != pathsem.NONE:
+                        once('unguarded-assume-init', None, 'without the identifier bit set the optional sub-view must be None')
+                else:
+                    if len(good_init) != 1 or len(inits) != 1 or V != good_init[0]['ret']:
+                        once('assume-init-count', None, 'a MaybeUninit super view must be assume_init-ed exactly once (found %d)' % len(inits))
             else:
-                if bits:
-                    pass
-        else:
-            if inits:
-                r.viol('G6', key + '/assume-init-on-option', f.loc(inits[0][1]['ln']), 'an optional super view is not MaybeUninit')
-            if sub[0] == 'ref' and len(unwraps) != 1:
-                r.viol('G6', key + '/unwrap', f.loc(), 'non-optional sub-view of an optional super view must unwrap it exactly once')
-            if sub[0] == 'opt' and unwraps:
-                r.viol('G6', key + '/unwrap-on-optional', f.loc(unwraps[0][1]['ln']), 'optional sub-view of an optional super view must pass the Option through (the component may be absent)')
-        # remainder (views.1, indices.1)
-        ok_rem = False
-        for b, i, s in body.stmts():
-            if s['k'] == 'assign' and s['rv']['k'] == 'agg' and s['rv']['agg'] == 'tuple' and len(s['rv']['ops']) == 2:
-                n0 = receiver_name(prog, body, s['rv']['ops'][0])
-                n1 = receiver_name(prog, body, s['rv']['ops'][1])
-                if n0 == 'views.1' and n1 == 'indices.1':
-                    ok_rem = True
-        if not ok_rem:
-            r.viol('G6', key + '/remainder', f.loc(), 'remainder handed to the next sub-view must be (views.1, indices.1)')
+                if inits:
+                    once('assume-init-on-option', inits[0]['ln'], 'an optional super view is not MaybeUninit')
+                payload = ('f', ('down', v0, 'Some', 1), 0, 'core::option::Option')
+                if sub[0] == 'ref':
+                    if len(unwraps) != 1 or S(V) != payload:
+                        once('unwrap', None, 'non-optional sub-view of an optional super view must unwrap it exactly once')
+                else:
+                    if unwraps:
+                        once('unwrap-on-optional', unwraps[0]['ln'], 'optional sub-view of an optional super view must pass the Option through (the component may be absent)')
+                    core = V
+                    while isinstance(core, tuple) and core[0] == 'cast':
+                        core = core[2]
+                    d = p.lookup(('discr', v0))
+                    ok = core == v0 or (d == 0 and core == pathsem.NONE) or \
+                        (d == 1 and isinstance(core, tuple) and core[0] == 'agg' and core[2] == 'Some' and S(core[4][0]) in (payload, ('d', payload)))
+                    if not ok:
+                        once('pass-through', None, 'optional sub-view of an optional super view must be that Option itself')
     return r
 
 
@@ -461,84 +536,98 @@ def c9f_results_folder(prog):
         r.viol('C9f', 'consume/missing', '-', 'ResultsFolder::consume not found')
         return r
     f = fs[0]
-    body = f.body
     r.inst('ResultsFolder::consume')
-    filt = [(b, t) for b, t in body.calls(lambda c: c['name'] == 'filter' and 'contains::filter' in c['path'])]
-    drive = [(b, t) for b, t in body.calls(lambda c: c['name'] in ('drive_unindexed', 'drive'))]
-    red = [(b, t) for b, t in body.calls(lambda c: c['name'] == 'reduce')]
-    pv = [(b, t) for b, t in body.calls(lambda c: c['name'] == 'par_view' and c['path'].startswith('archetype::Archetype'))]
-    if len(filt) != 1 or len(drive) != 1 or len(pv) != 1:
-        r.viol('C9f', 'consume/shape', f.loc(), 'consume must filter the archetype, view it in parallel and drive the views exactly once (filter=%d par_view=%d drive=%d)' % (len(filt), len(pv), len(drive)))
-        return r
-    g = [a for a in filt[0][1]['f']['args'] if a.get('k') != 'region']
-    if not any(is_adt(a, 'query::filter::And') for a in g):
-        r.viol('C9f', 'consume/filter-not-and', f.loc(filt[0][1]['ln']), 'archetypes must be selected with And<Views, Filter>')
     adt = prog.adts.get('query::result::par_iter::ResultsFolder')
     names = [x['name'] for x in adt['variants'][0]['fields']]
     pi = names.index('previous')
-    res_l = drive[0][1]['dest']['l']
-    der_res = derived(body, {res_l})
-    # folder aggregates on the filter-true side
-    cl = filt[0][1]['dest']['l']
-    from .mir import bool_switches
-    sws = bool_switches(body, cl)
-    if len(sws) != 1:
-        r.viol('C9f', 'consume/filter-branch', f.loc(), 'filter result does not control a two-way branch')
-        return r
-    sb, t_true, t_false = sws[0]
-    aggs = [(b, i, s) for b, i, s in body.stmts() if s['k'] == 'assign' and s['rv']['k'] == 'agg' and s['rv'].get('path') == 'query::result::par_iter::ResultsFolder']
-    if not aggs:
-        r.viol('C9f', 'consume/no-new-folder', f.loc(), 'no folder is built from the new partial result')
-    for b, i, s in aggs:
-        if not body.edge_dominates((sb, t_true), b):
-            r.viol('C9f', 'consume/folder-on-skip-path', f.loc(s['ln']), 'a new folder is built on the path where the archetype does not match')
-        pl = op_local(s['rv']['ops'][pi])
-        if pl is None or pl not in der_res:
-            r.viol('C9f', 'consume/result-dropped', f.loc(s['ln']), 'the partial result of this archetype does not reach the folder\'s accumulated result: its entities are silently lost')
-    # reduce(previous, result) takes the old previous and the new result
-    if len(red) != 1:
-        r.viol('C9f', 'consume/no-reduce', f.loc(), 'results of two archetypes are not combined with the consumer\'s reducer')
-    else:
-        rb, rt = red[0]
-        args = [op_local(a) for a in rt['args'][1:]]
-        has_res = any(a in der_res for a in args if a is not None)
-        has_prev = False
-        for a in rt['args'][1:]:
-            l = op_local(a)
-            if l is None:
-                continue
-            acc = access_of_local(body, l)
-            fl = [s_[1] for s_ in acc.steps if isinstance(s_, tuple) and s_[0] == 'f']
-            if acc.root == 1 and fl and fl[0] == pi:
-                has_prev = True
-            d = resolve_def(body, l)
-            if d and d[0] == 'assign' and d[3]['rv']['k'] == 'use':
-                p = op_place(d[3]['rv']['op'])
-                if p and p['l'] == 1 and any(isinstance(e, dict) and e.get('f') == pi for e in p['p']):
-                    has_prev = True
-                if p:
-                    a2 = access_of_place(body, p)
-                    fl2 = [s_[1] for s_ in a2.steps if isinstance(s_, tuple) and s_[0] == 'f']
-                    if a2.root == 1 and fl2 and fl2[0] == pi:
-                        has_prev = True
-        if not (has_res and has_prev):
-            r.viol('C9f', 'consume/reduce-operands', f.loc(rt['ln']), 'the reducer must combine the previously accumulated result with this archetype\'s result (previous: %s, new result: %s)' % (has_prev, has_res))
+    E = pathsem.analyse(prog, f)
+    rets = [p for p in E.paths if p.ended == 'return']
+    rep = set()
+
+    def once(k, ln, msg, fn=f):
+        if k not in rep:
+            rep.add(k)
+            r.viol('C9f', k, fn.loc(ln), msg)
+    if E.truncated or not rets:
+        once('consume/shape', None, 'consume not analysable')
+    S = pathsem.strip_refs
+    me = ('p', 1, f.body.local_name(1) or 'self')
+    arch = ('p', 2, f.body.local_name(2) or 'archetype')
+    prev = ('f', me, pi, 'query::result::par_iter::ResultsFolder')
+    prev_payload = ('f', ('down', prev, 'Some', 1), 0, 'core::option::Option')
+    n_match = 0
+    for p in rets:
+        filt = p.calls(lambda e: e['name'] == 'filter' and 'contains::filter' in e['path'])
+        drive = p.calls(lambda e: e['name'] in ('drive_unindexed', 'drive'))
+        pv = p.calls(lambda e: e['name'] == 'par_view' and e['path'].startswith('archetype::Archetype'))
+        if len(filt) != 1:
+            once('consume/shape', None, 'consume must filter the archetype exactly once per path (found %d)' % len(filt))
+            continue
+        g = [a_ for a_ in filt[0]['f']['args'] if a_.get('k') != 'region']
+        if not any(is_adt(a_, 'query::filter::And') for a_ in g):
+            once('consume/filter-not-and', filt[0]['ln'], 'archetypes must be selected with And<Views, Filter>')
+        if not pathsem.mentions(filt[0]['args'][0], lambda t: t == arch):
+            once('consume/filter-other-archetype', filt[0]['ln'], 'the filter is not applied to the archetype being consumed')
+        tv = p.lookup(filt[0]['ret'])
+        if tv is None:
+            once('consume/filter-branch', filt[0]['ln'], 'filter result does not control a two-way branch')
+            continue
+        if tv is False:
+            if drive or pv:
+                once('consume/folder-on-skip-path', (drive or pv)[0]['ln'], 'the archetype is viewed on the path where it does not match the filter')
+            if S(p.ret) != me:
+                once('consume/folder-on-skip-path', None, 'a new folder is built on the path where the archetype does not match')
+            continue
+        n_match += 1
+        if len(drive) != 1 or len(pv) != 1 or not pathsem.mentions(drive[0]['args'][0], lambda t: t == pv[0]['ret']) or S(pv[0]['vals'][0]) != arch:
+            once('consume/shape', None, 'consume must view the matching archetype in parallel and drive those views exactly once (par_view=%d drive=%d)' % (len(pv), len(drive)))
+            continue
+        res = drive[0]['ret']
+        v = p.ret
+        if not (isinstance(v, tuple) and v[0] == 'agg' and v[1] == 'query::result::par_iter::ResultsFolder'):
+            once('consume/no-new-folder', None, 'no folder is built from the new partial result')
+            continue
+        np_ = v[4][pi]
+        d = p.lookup(('discr', prev))
+        if not (isinstance(np_, tuple) and np_[0] == 'agg' and np_[2] == 'Some'):
+            once('consume/result-dropped', None, 'the partial result of this archetype does not reach the folder\'s accumulated result: its entities are silently lost')
+            continue
+        x = np_[4][0]
+        if d == 0:
+            if x != res:
+                once('consume/result-dropped', None, 'the partial result of this archetype does not reach the folder\'s accumulated result: its entities are silently lost')
+        elif d == 1:
+            red = p.calls(lambda e: e['name'] == 'reduce')
+            if len(red) != 1 or x != red[0]['ret']:
+                once('consume/no-reduce', None, 'results of two archetypes are not combined with the consumer\'s reducer')
+            else:
+                ops_ = [S(a_) for a_ in red[0]['args'][1:]]
+                if ops_ != [prev_payload, res]:
+                    once('consume/reduce-operands', red[0]['ln'], 'the reducer must combine the previously accumulated result with this archetype\'s result, in that order (previous: %s, new result: %s)' % (prev_payload in ops_, res in ops_))
+        else:
+            once('consume/result-dropped', None, 'the accumulated result is replaced without looking at the previous one')
+    if not n_match:
+        once('consume/shape', None, 'no path consumes a matching archetype')
     # complete
     cs = [g_ for g_ in prog.fns.values() if g_.name == 'complete' and g_.impl and is_adt(g_.impl['self'], 'query::result::par_iter::ResultsFolder')]
     if len(cs) != 1:
         r.viol('C9f', 'complete/missing', '-', 'ResultsFolder::complete not found')
     else:
         c = cs[0]
-        cb = c.body
         r.inst('ResultsFolder::complete')
-        reads_prev = False
-        for b, i, s in cb.stmts():
-            if s['k'] == 'assign' and s['place']['l'] == 0:
-                for p in rv_operands(s['rv']):
-                    a = access_of_place(cb, p)
-                    fl = [s_[1] for s_ in a.steps if isinstance(s_, tuple) and s_[0] == 'f']
-                    if a.root == 1 and fl and fl[0] == pi:
-                        reads_prev = True
-        if not reads_prev:
-            r.viol('C9f', 'complete/previous-dropped', c.loc(), 'complete does not return the accumulated result')
+        E = pathsem.analyse(prog, c)
+        me = ('p', 1, c.body.local_name(1) or 'self')
+        prev = ('f', me, pi, 'query::result::par_iter::ResultsFolder')
+        prev_payload = ('f', ('down', prev, 'Some', 1), 0, 'core::option::Option')
+        seen = False
+        for p in E.paths:
+            if p.ended != 'return':
+                continue
+            d = p.lookup(('discr', prev))
+            if d == 1:
+                seen = True
+                if S(p.ret) != prev_payload:
+                    once('complete/previous-dropped', None, 'complete does not return the accumulated result', fn=c)
+        if not seen or E.truncated:
+            once('complete/previous-dropped', None, 'complete does not return the accumulated result', fn=c)
     return r
